@@ -310,6 +310,7 @@ func runC12(c *engine.Ctx) {
 		kind  drv.Kind
 		name  string
 		start string // absent | existing
+		big   bool   // 1 MiB + 4 KiB payload instead of 20 bytes
 	}
 	malformed := map[string]func(payload []byte, enc []byte) (body []byte, decoded int){
 		"corrupt-hex-size": func(p, e []byte) ([]byte, int) { b := append([]byte{}, e...); b[0] = 'z'; return b, len(p) },
@@ -353,17 +354,24 @@ func runC12(c *engine.Ctx) {
 	for _, k := range kinds {
 		for _, st := range []string{"absent", "existing"} {
 			for _, n := range mnames {
-				mcases = append(mcases, mcase{k, n, st})
+				mcases = append(mcases, mcase{k, n, st, false})
+				mcases = append(mcases, mcase{k, n, st, true})
 			}
 			// truncation at every byte position before the last payload byte
 			lastPayload := bytes.LastIndex(enc, payload[10:]) + 9
 			for cut := 0; cut <= lastPayload; cut++ {
-				mcases = append(mcases, mcase{k, "truncate@" + strconv.Itoa(cut), st})
+				mcases = append(mcases, mcase{k, "truncate@" + strconv.Itoa(cut), st, false})
 			}
 		}
 	}
+	payloadBig := mkPayload(1<<20 + 4096)
+	encBig := drv.EncodeChunked(payloadBig, []int{1 << 16, 1<<20 - 1<<16, 4096})
 	engine.ParallelFor(len(mcases), func(_, i int) {
 		mc := mcases[i]
+		payload, enc := payload, enc
+		if mc.big {
+			payload, enc = payloadBig, encBig
+		}
 		w := newW(mc.kind)
 		defer w.Close()
 		old := []byte("previous-content")
@@ -392,6 +400,9 @@ func runC12(c *engine.Ctx) {
 		name := mc.name
 		if strings.HasPrefix(name, "truncate@") {
 			name = "truncated"
+		}
+		if mc.big {
+			name += "(1MiB+4KiB)"
 		}
 		if r.Panic != "" {
 			c.Report(&engine.Violation{Sig: sig("C12", backendClass(mc.kind), "malformed-stream", name, "panic@"+drv.PanicFrame(r.Panic)), World: string(mc.kind), History: []string{mc.name, mc.start}, Msg: firstLine(r.Panic)})
